@@ -695,6 +695,68 @@ where
     finish(tr)
 }
 
+fn plans_from(b: &serde_json::Value) -> Vec<Vec<u64>> {
+    let mut plans: Vec<Vec<u64>> = b["plans"]
+        .as_array()
+        .unwrap()
+        .iter()
+        .map(|p| p.as_array().unwrap().iter().map(|h| mkhash(h[0].as_u64().unwrap(), h[1].as_u64().unwrap())).collect())
+        .collect();
+    while plans.len() < 2 {
+        plans.push(plans[0].clone());
+    }
+    plans
+}
+
+fn replay_set<K: KeyT>(b: &serde_json::Value, name: &str, seed: u64, tr: &mut Tracer) -> i32
+where
+    for<'a> K: From<&'a K::Q>,
+{
+    env::reset_all();
+    let plans = plans_from(b);
+    env::with(|e| e.plans = plans);
+    let nt = 3usize;
+    let w = hashbrown::verif::GROUP_WIDTH;
+    let (es, _) = hashbrown::verif::table_layout::<(K, ())>();
+    let ea = std::mem::align_of::<(K, ())>();
+    tr.reset("set", name, w, es, ea, std::mem::needs_drop::<K>(), K::TRACKED, nt, "lawful", seed);
+    let mut drv: SetDrv<K> = SetDrv::new(nt, w);
+    for t in 1..=nt {
+        let mut ev = Event::new("new", t);
+        ev.n = 0;
+        drv.exec(ev, tr);
+    }
+    for o in b["ops"].as_array().unwrap() {
+        drv.exec(ev_from_json(o), tr);
+    }
+    for t in 1..=nt {
+        drv.exec(Event::new("drop", t), tr);
+    }
+    finish(tr)
+}
+
+fn replay_table<E: ElemT>(b: &serde_json::Value, name: &str, seed: u64, tr: &mut Tracer) -> i32 {
+    env::reset_all();
+    let plans = plans_from(b);
+    env::with(|e| e.plans = plans);
+    let nt = 2usize;
+    let w = hashbrown::verif::GROUP_WIDTH;
+    let (es, _) = hashbrown::verif::table_layout::<E>();
+    let ea = std::mem::align_of::<E>();
+    tr.reset("table", name, w, es, ea, std::mem::needs_drop::<E>(), E::TRACKED, nt, "lawful", seed);
+    let mut drv: TableDrv<E> = TableDrv::new(nt, w);
+    for t in 1..=nt {
+        drv.exec(Event::new("new", t), tr);
+    }
+    for o in b["ops"].as_array().unwrap() {
+        drv.exec(ev_from_json(o), tr);
+    }
+    for t in 1..=nt {
+        drv.exec(Event::new("drop", t), tr);
+    }
+    finish(tr)
+}
+
 pub fn replay(out: &str, seed: u64, files: &[String]) -> i32 {
     let mut tr = Tracer::new(out);
     for f in files {
@@ -710,6 +772,8 @@ pub fn replay(out: &str, seed: u64, files: &[String]) -> i32 {
             let name = format!("replay:{}:{}", f.rsplit('/').next().unwrap_or(f), i);
             let rc = match kind {
                 "map" => dispatch_map!(layout.as_str(), replay_map, &b, &name, seed, &mut tr),
+                "set" => dispatch_set!(layout.as_str(), replay_set, &b, &name, seed, &mut tr),
+                "table" => dispatch_table!(layout.as_str(), replay_table, &b, &name, seed, &mut tr),
                 other => panic!("unknown behaviour kind {}", other),
             };
             if rc != 0 {
